@@ -97,7 +97,7 @@ def _tags_case(ctx, which):
     same = z3.Const("same_value", AIB_)
     k, j = z3.Int("k"), z3.Int("j")
     tags = SList(n, z3.Lambda([k], k), lambda t: Ref(t))
-    h0 = {"was_set": z3.Const("was_set", AIB_)}
+    h0 = {"was_set": z3.Const("was_set", AIB_), "dt_declared": z3.K(I, z3.BoolVal(False))}
     s, prev = Obj(g.line.group.Unordered, "new"), Obj(g.line.group.Unordered, "previous")
     class Val:
         """a tag value: may be false as a Boolean; compared through the symbolic relation `same`"""
@@ -117,13 +117,31 @@ def _tags_case(ctx, which):
     def m_ne(E, st, pos, kw):
         a, b = pos
         yield ("val", z3.Not(same[a.t]), [])
+    class DT:
+        """the datatype of tag t on the stored line"""
+        def __init__(self, t):
+            self.t = t
+    def m_get_dt(E, st, pos, kw):
+        self_, tag_ = pos
+        if self_ is not prev:
+            raise Unsupported("get_datatype of the new line")
+        yield ("val", DT(tag_.t), [])
+    def m_set_dt(E, st, pos, kw):
+        self_, tag_, dt_ = pos
+        zh = dict(st.zh)
+        zh["dt_declared"] = z3.Store(zh["dt_declared"], tag_.t, z3.And(z3.BoolVal(self_ is s and isinstance(dt_, DT)), dt_.t == tag_.t) if isinstance(dt_, DT) else z3.BoolVal(False))
+        yield ("val", None, [], st.with_zh(zh))
     def m_set(E, st, pos, kw):
         self_, tag_, v_ = pos
         zh = dict(st.zh)
-        zh["was_set"] = z3.Store(zh["was_set"], tag_.t, z3.BoolVal(self_ is s and isinstance(v_, Val) and v_.who == "prv"))
+        # the value of the stored line, written under the datatype of the stored line (declared before the value is set: a new tag
+        # would otherwise take the default datatype of its value, A -> Z, J -> B)
+        zh["was_set"] = z3.Store(zh["was_set"], tag_.t, z3.And(z3.BoolVal(self_ is s and isinstance(v_, Val) and v_.who == "prv"), zh["dt_declared"][tag_.t]))
         yield ("val", None, [], st.with_zh(zh))
     models = {ctx.fn("gfapy/line/common/field_data.py::FieldData.get"): m_get, g.Line.tagnames.fget: const_model(lambda self_: tags),
-              ctx.fn("gfapy/line/common/field_data.py::FieldData.set"): m_set}
+              ctx.fn("gfapy/line/common/field_data.py::FieldData.set"): m_set,
+              ctx.fn("gfapy/line/common/field_datatype.py::FieldDatatype.get_datatype"): m_get_dt,
+              ctx.fn("gfapy/line/common/field_datatype.py::FieldDatatype.set_datatype"): m_set_dt}
     conflict = lambda upto: z3.Exists([j], z3.And(0 <= j, j < upto, has_cur[j], z3.Not(same[j])))
     fn = "gfapy/line/group/gfa2/same_id.py::SameID." + which
     label = "SameID." + which
@@ -134,7 +152,7 @@ def _tags_case(ctx, which):
         else:
             c.append(st.zh["was_set"] == h0["was_set"])
         return z3.And(*c)
-    inv = {(label, 0): dict(inv=inv0, modheap=["was_set"], mod={"tag": lambda nm: Ref(fresh(nm, I)), "prv": lambda nm: Val(fresh(nm, I), "prv"), "cur": lambda nm: Val(fresh(nm, I), "cur")})}
+    inv = {(label, 0): dict(inv=inv0, modheap=["was_set", "dt_declared"], mod={"tag": lambda nm: Ref(fresh(nm, I)), "prv": lambda nm: Val(fresh(nm, I), "prv"), "cur": lambda nm: Val(fresh(nm, I), "cur")})}
     def post(kd, v, st):
         if kd == "raise":
             return z3.And(z3.BoolVal(v.cls is g.NotUniqueError), conflict(n))
@@ -166,5 +184,5 @@ _mk_tags_contract("_check_tags_of_previous_group_definition",
                   "NotUniqueError iff some tag of the stored line is DEFINED on the new line (whatever its truth value: 0 and [] are values) with a "
                   "different value; nothing is written (loop invariant over the tags)")
 _mk_tags_contract("_import_tags_of_previous_group_definition",
-                  "every tag of the stored line that the new line does not define is set on it to the stored value, the defined ones are left alone; a "
+                  "every tag of the stored line that the new line does not define is set on it to the stored value under the stored datatype (declared before the value is set), the defined ones are left alone; a "
                   "defined tag with a different value raises NotUniqueError (loop invariant over the tags)")
